@@ -1328,6 +1328,13 @@ class Engine(object):
         return out
 
     def cmp(self, op, a, b):
+        def lit_len(t):
+            # len() of a literal container without star elements is a number
+            if t[0] == 'call' and t[1] == ('lib', 'len') and len(t[2]) == 1 and not t[3] and t[2][0][0] in ('tuple', 'list', 'dict', 'set') \
+                    and isinstance(t[2][0][1], tuple) and not any(isinstance(x, tuple) and x and x[0] in ('star', 'dstar') for x in t[2][0][1]):
+                return C(len(t[2][0][1]))
+            return t
+        a, b = lit_len(a), lit_len(b)
         if is_const(a) and is_const(b):
             try:
                 x, y = a[1], b[1]
@@ -1351,7 +1358,7 @@ class Engine(object):
                 pass
         if op in ('is', 'is not'):
             same = None
-            if a == b and a[0] in ('opaque', 'role', 'bk', 'param', 'ev', 'closure', 'lib'):
+            if a == b and a[0] in ('opaque', 'role', 'bk', 'param', 'ev', 'closure', 'lib', 'global'):
                 same = True
             elif a != b and set([a[0], b[0]]) <= set(['opaque', 'ev']) and ('opaque' in (a[0], b[0])):
                 same = False      # a freshly produced value is never a marker object created elsewhere
